@@ -272,7 +272,7 @@ Qed.
 Lemma U_entries_loop_S p f cnt bs acc : U_entries_loop p (S f) cnt bs acc =
   if cnt =? 0 then Ok (rev acc, bs)
   else '(e, r) <- U_entry p bs ;; U_entries_loop p f (cnt - 1) r (e :: acc).
-Proof. reflexivity. Qed.
+Proof. rewrite ?rev_alt. reflexivity. Qed.
 
 Lemma U_entries_loop_enc p l : forallb wf_entry l = true ->
   forall b, M_entries_body l = Ok b ->
@@ -385,7 +385,7 @@ Lemma unmarshal_packed_loop_enc l : forallb wf_entry l = true ->
 Proof.
   induction l as [|x l IH]; intros Hwf b Henc f acc Hf;
     (destruct f as [|f]; [cbn [length] in Hf; lia|]); cbn [M_entries_body] in Henc.
-  - apply Ok_inj in Henc as <-. cbn [unmarshal_packed_loop map]. now rewrite app_nil_r.
+  - apply Ok_inj in Henc as <-. cbn [unmarshal_packed_loop map]. now rewrite <- rev_alt, app_nil_r.
   - cbn [forallb] in Hwf. apply andb_prop in Hwf as [Hw1 Hw2].
     destruct (M_entry x) as [a| |] eqn:Ea; try discriminate.
     destruct (M_entries_body l) as [b'| |] eqn:Eb; try discriminate.
@@ -434,7 +434,7 @@ Lemma U_helo_opts_loop_S p f cnt bs o : U_helo_opts_loop p (S f) cnt bs o =
     else if bytes_eqb k k_keepalive then
       '(v, r') <- rd_bool r ;; U_helo_opts_loop p f (cnt - 1) r' {| h_nonce := h_nonce o; h_auth := h_auth o; h_keepalive := v |}
     else r' <- skip p (fuel_for r) r ;; U_helo_opts_loop p f (cnt - 1) r' o.
-Proof. reflexivity. Qed.
+Proof. rewrite ?rev_alt. reflexivity. Qed.
 
 Lemma k_nonce_ok : len k_nonce < two32 /\ k_nonce <> []. Proof. split; [reflexivity|discriminate]. Qed.
 Lemma k_auth_ok : len k_auth < two32 /\ k_auth <> []. Proof. split; [reflexivity|discriminate]. Qed.
